@@ -275,7 +275,7 @@ Qed.
 
 Lemma bstep_items s t s' : BInv s -> ItemInv s -> bstep s t = Some s' -> ItemInv s'.
 Proof.
-  intros B I H. destruct t as [|k|k|]; cbn [BatchConc.bstep] in H.
+  intros B I H. destruct t as [|k|k| |]; cbn [BatchConc.bstep] in H.
   - destruct (mpc s).
     + destruct (adding s).
       * destruct (Nat.ltb (enq s - deq s) qcap); inv H. eapply items_frame; eauto.
@@ -308,6 +308,7 @@ Proof.
       * rewrite nth_error_set_nth_ne in Hr by exact Hnk. apply I2. exists k'. exact Hr.
     + intros Hd Hnr. apply I3; auto. intros pc [k' Hr]. apply (Hnr pc). exists k'.
       rewrite nth_error_set_nth_ne; auto. intros <-. rewrite Hk in Hr. discriminate.
+  - inv H. eapply items_frame; eauto.
   - inv H. eapply items_frame; eauto.
 Qed.
 
